@@ -162,7 +162,7 @@ class Interp:
             v = self.ev(t["e"], st)
             if v is None:
                 return None
-            esz = type_esz(t.get("tt")) or tystr_esz(t.get("ty"))
+            esz = type_esz(t.get("tt")) or tystr_esz(t.get("ty")) or self.esz_of.get((t.get("tt") or {}).get("rec"))
             if t.get("tt", {}).get("ptr") or "*" in (t.get("ty") or ""):
                 return Val(v.p, esz or 1)
             return Val(v.p, None)
@@ -200,6 +200,17 @@ class Interp:
                 # value of the expression (the side effect is a separate event)
                 v = self.ev(t["e"], st)
                 return v
+            if op == "&":
+                # address of an array element: &p[i] == p + i (scaled by the pointee size)
+                x = t.get("e")
+                while isinstance(x, dict) and x.get("k") in ("paren",):
+                    x = x.get("e")
+                if isinstance(x, dict) and x.get("k") == "idx":
+                    b, i = self.ev(x.get("b"), st), self.ev(x.get("i"), st)
+                    if b is None or i is None or not b.esz:
+                        return None
+                    return Val(b.p + i.p * Poly.const(b.esz), b.esz)
+                return None
             v = self.ev(t["e"], st)
             if v is None:
                 return None
@@ -259,6 +270,8 @@ class Interp:
             if op == "*":
                 return Val(a.p * b.p)
             if op == "/":
+                if a.p.is_const() and b.p.is_const() and b.p.cval() > 0 and a.p.cval() >= 0:
+                    return Val(Poly.const(a.p.cval() // b.p.cval()))          # two non-negative constants: C++ truncation
                 if b.p.is_const() and b.p.cval() != 0 and all(v % b.p.cval() == 0 for v in a.p.t.values()):
                     return Val(Poly({k2: v // b.p.cval() for k2, v in a.p.t.items()}))
                 return None
